@@ -10,10 +10,9 @@
 //!   locks conc --pairs FILE --out FILE
 //!        concurrent execution of pairs of channel requests under controller-imposed schedules;
 //!        records replies and final states (linearizability leg).
-use std::cell::Cell;
 use std::collections::HashMap;
-use std::sync::atomic::{AtomicBool, AtomicUsize, Ordering};
-use std::sync::{Arc, Condvar, Mutex as StdMutex};
+use std::sync::atomic::{AtomicBool, Ordering};
+use std::sync::{Arc, Mutex as StdMutex};
 use std::time::{Duration, Instant};
 
 use bitcoin::bip32::DerivationPath;
@@ -27,76 +26,11 @@ use lightning_signer::util::test_utils::{
     channel_commitment, counterparty_sign_holder_commitment, TestChannelContext,
     TestFundingTxContext,
 };
-use lightning_signer::verif_sync::{set_lock_tracer, LockTracer};
+use lightning_signer::verif_sync::set_lock_tracer;
 use serde_json::{json, Value};
 use vls_verif_harness::*;
 
-thread_local! {
-    static TID: Cell<usize> = Cell::new(usize::MAX);
-    static NACQ: Cell<usize> = Cell::new(0);
-}
-
-#[derive(Clone, Debug)]
-struct Ev {
-    tid: usize,
-    kind: &'static str, // "want" | "acq" | "rel"
-    class: &'static str,
-    addr: usize,
-}
-
-struct Tracer {
-    events: StdMutex<Vec<Ev>>,
-    /// per thread: stop before this acquisition index until released
-    stop_at: Vec<AtomicUsize>,
-    arrived: Vec<AtomicBool>,
-    gate: (StdMutex<bool>, Condvar),
-}
-
-impl Tracer {
-    fn new(nthreads: usize) -> Tracer {
-        Tracer {
-            events: StdMutex::new(vec![]),
-            stop_at: (0..nthreads).map(|_| AtomicUsize::new(usize::MAX)).collect(),
-            arrived: (0..nthreads).map(|_| AtomicBool::new(false)).collect(),
-            gate: (StdMutex::new(false), Condvar::new()),
-        }
-    }
-    fn push(&self, kind: &'static str, class: &'static str, addr: usize) {
-        let tid = TID.with(|t| t.get());
-        if tid == usize::MAX {
-            return;
-        }
-        self.events.lock().unwrap().push(Ev { tid, kind, class, addr });
-    }
-}
-
-impl LockTracer for Tracer {
-    fn before_lock(&self, class: &'static str, addr: usize) {
-        let tid = TID.with(|t| t.get());
-        if tid == usize::MAX {
-            return;
-        }
-        let k = NACQ.with(|c| c.get());
-        if tid < self.stop_at.len() && self.stop_at[tid].load(Ordering::SeqCst) == k {
-            self.arrived[tid].store(true, Ordering::SeqCst);
-            let (m, cv) = (&self.gate.0, &self.gate.1);
-            let mut open = m.lock().unwrap();
-            let deadline = Instant::now() + Duration::from_secs(10);
-            while !*open && Instant::now() < deadline {
-                let (g, _) = cv.wait_timeout(open, Duration::from_millis(50)).unwrap();
-                open = g;
-            }
-        }
-        self.push("want", class, addr);
-    }
-    fn after_lock(&self, class: &'static str, addr: usize) {
-        NACQ.with(|c| c.set(c.get() + 1));
-        self.push("acq", class, addr);
-    }
-    fn unlock(&self, class: &'static str, addr: usize) {
-        self.push("rel", class, addr);
-    }
-}
+use vls_verif_harness::sched::{Ev, Tracer, NACQ, TID};
 
 fn short_class(c: &str) -> String {
     // the lock class is the payload type: keep the last path segments of the outer type
